@@ -95,3 +95,46 @@ func vh_future_once() {
 	_ = time.Second
 	vReach("future.end")
 }
+
+// vh_apply_api: the client entry points on a running server whose main loop is
+// busy (nobody receives from applyCh): with a timeout the call reports
+// ErrEnqueueTimeout and the command is never enqueued (C08); without one it is
+// owned by the channel / a parked sender (not lost).
+func vh_apply_api() {
+	r, _ := vNewRaft("a", vRaftOpts{n: 1})
+	batch := vChoose("batchApplyCh", 0, 1) == 1
+	if batch {
+		r.applyCh = make(chan *logFuture, 1)
+		r.applyCh <- vArbFuture("queued") // the buffer is full
+	} else {
+		r.applyCh = make(chan *logFuture)
+	}
+	pre := len(r.applyCh)
+	vTimerMode(1) // the enqueue timer elapses
+	var f Future
+	if vChoose("barrier", 0, 1) == 1 {
+		f = r.Barrier(time.Second)
+	} else {
+		f = r.Apply(vBlob("cmd"), time.Second)
+	}
+	err := f.Error()
+	vAssert(err == ErrEnqueueTimeout, "C08.api.enqueue-timeout-reported")
+	vAssert(len(r.applyCh) == pre, "C08.api.timed-out-command-never-enqueued")
+	vReach("applyapi.end")
+}
+
+// vh_timeout_now: the TimeoutNow handler (leadership transfer target).
+func vh_timeout_now() {
+	r, env := vNewRaft("a", vRaftOpts{n: 1})
+	vAssume(vInvBasic(r, env))
+	pre := vSnap(r, env)
+	rpc, ch := vMakeRPC(&TimeoutNowRequest{})
+	r.timeoutNow(rpc, &TimeoutNowRequest{})
+	out := <-ch
+	post := vSnap(r, env)
+	vAssert(out.Error == nil, "C14.timeoutnow.answered")
+	vAssert(post.state == Candidate && r.candidateFromLeadershipTransfer.Load(), "C14.timeoutnow.becomes-transfer-candidate")
+	vAssert(post.leaderAddr == "" && post.leaderID == "", "C18.timeoutnow.leader-hint-cleared")
+	vAssert(post.term == pre.term && post.stableCalls == pre.stableCalls && post.storeCalls == pre.storeCalls, "C06.timeoutnow.no-durable-change")
+	vReach("timeoutnow.end")
+}
